@@ -318,6 +318,19 @@ def one(rec, R, nd, det, abn, orders, text, doc, max_leaves, exhaustive):
                 rec.violation("not-a-permutation-of-the-deterministic-result", dict(wit, observed_ordering=jsonable(r), deterministic=jsonable(base)))
                 return
     # exhaustiveness
+    if exhaustive and complete and controlled and permitted is not None and len(results) == 1 and len(permitted) > 1 and leaves == 1:
+        # no choice point was offered to the chooser although several orderings are permitted: either the mode is not
+        # nondeterministic at all (a violation) or it draws its entropy from a source the chooser does not control
+        seen = set()
+        for _ in range(25):
+            try:
+                seen.add(locs(q.find(doc)))
+            except Exception:  # noqa: BLE001
+                pass
+        if len(seen | set(results)) > 1:
+            rec.feat("uncontrolled-entropy")
+            rec.note("entropy source not controlled by the chooser for %r: exhaustiveness not decided" % text)
+            return
     if exhaustive and complete and controlled and permitted is not None:
         rec.monitor("M-exhaustiveness")
         missing = permitted - set(results)
